@@ -132,7 +132,7 @@ U("print_object_f0", "cjson", "harness/print_object.c", enforce="print_object", 
   tdefs={"quick": ["-DPO_K=1"], "thorough": ["-DPO_K=2"]}, unwindset=["print_object.0:5", "print_object.1:5", "print_object.2:5"],
   replace=["ensure/ensure_pc", "print_value/print_value_pc", "print_string_ptr/print_string_ptr_pc", "update_offset/update_offset_pc"], timeout=(900, 3000),
   note="member values and keys arbitrary (print_value / print_string_ptr replaced by logging views); member count bounded by precondition")
-for _d, _tiers in ((0, ("quick", "thorough")), (1, ("quick", "thorough")), (2, ("thorough",))):
+for _d, _tiers in ((0, ("quick", "thorough")), (1, ("thorough",)), (2, ("quick", "thorough"))):   # quick: no tabs before the closing brace (0) and the deepest (2)
     U("print_object_f1_d%d" % _d, "cjson", "harness/print_object.c", enforce="print_object", shape="S", tiers=_tiers, bound="formatted, nesting depth exactly %d; members <= 1 (quick) / 2 (thorough)" % _d, object_bits=10, sat="minisat2", mem=30,
       props=["C04", "C05", "C08", "C09", "C20"], covers=5, defs=["-DVF_PRINT_CONT", "-DPO_FMT=1", "-DPO_DEPTH=%d" % _d, "-Dh_print_object=h_print_object_f1_d%d" % _d],
       tdefs={"quick": ["-DPO_K=1"], "thorough": ["-DPO_K=2"]}, unwindset=["print_object.0:5", "print_object.1:5", "print_object.2:5"],
@@ -330,6 +330,12 @@ for _sc in range(4):
       unwindset=_AP_UW + ["generate_merge_patch:4", "generate_merge_patch.0:5", "merge_patch:4", "merge_patch.0:4", "cJSON_Compare:4", "cJSONUtils_GenerateMergePatch:3"], timeout=(900, 3000),
       defs=["-DGM_SCEN=%d" % _sc, "-Dh_u_genmerge_b=h_u_genmerge_b_%d" % _sc], mem=30, tiers=())
 
+# move on nested documents (incl. "moving a value into its own child", named by C16)
+for _sc in (0, 1, 2):
+    U("u_ap_nested_b_%d" % _sc, "both", "harness/u_ap_nested_b.c", no_contract=True, shape="B", bound="ONE concrete nested document and move operation (scenario %d, see harness); scenario 1 with a symbolic value" % _sc,
+      funcs=_AP_F, props=["C16"], covers=1, unwind=8, unwindset=_AP_UW + ["mkstr.0:9", "healthy.0:6"], timeout=(600, 1800),
+      defs=["-DAN_SCEN=%d" % _sc, "-Dh_u_ap_nested_b=h_u_ap_nested_b_%d" % _sc],
+      note="status, ledger balance and tree health for move across nesting levels")
 # array helpers of cJSON_Utils.c behind the patch operations on array elements
 for _n in (0, 1, 3):
     U("u_array_get_b_%d" % _n, "both", "harness/u_array_helpers_b.c", no_contract=True, shape="B", bound="array of exactly %d elements, every 64-bit index" % _n,
@@ -344,7 +350,7 @@ for _op, _opn in ((0, "detach"), (1, "insert")):
           note="list model: position, order of the others, chain health (next/prev mirror, first->prev == last)")
 
 # compare_json: the equality behind the patch "test" operation and both generators
-for _na, _nb, _tiers in ((0, 0, ("quick", "thorough")), (0, 1, ("quick", "thorough")), (1, 1, ("quick", "thorough")), (1, 2, ("quick", "thorough")), (2, 1, ("quick", "thorough")), (2, 2, ("thorough",))):
+for _na, _nb, _tiers in ((0, 0, ("quick", "thorough")), (0, 1, ("quick", "thorough")), (1, 1, ("quick", "thorough")), (1, 2, ("quick", "thorough")), (2, 1, ("quick", "thorough")), (2, 2, ())):  # 22: does not finish in 3000 s with either SAT back end
     U("u_compare_json_b_%d%d" % (_na, _nb), "both", "harness/u_compare_json_b.c", no_contract=True, shape="B", tiers=_tiers, bound="first tree root + %d leaf children, second root + %d" % (_na, _nb),
       funcs=["compare_json", "sort_object", "sort_list", "compare_strings"], props=["C16", "C18"], covers=3, unwind=5, sat=("minisat2" if (_na, _nb) == (2, 2) else "cadical"),
       unwindset=["compare_json:3", "compare_json.0:4", "compare_json.1:4", "sort_list:3", "sort_list.0:3", "sort_list.1:3", "sort_list.2:3"], timeout=(900, 3000),
@@ -352,9 +358,9 @@ for _na, _nb, _tiers in ((0, 0, ("quick", "thorough")), (0, 1, ("quick", "thorou
       note="model equality of JSON values against compare_json for every pair of trees of this shape; both case modes")
 
 # fully concrete scenarios for the generators (one input each; supplementary, not a decision procedure for C17/C18)
-for _sc in range(5):
-    for _seed in (0, 1):
+for _sc in range(7):
+    for _seed in ((0, 1) if _sc < 5 else (0,)):
         U("u_genmerge_c_%d%d" % (_sc, _seed), "both", "harness/u_genmerge_b.c", no_contract=True, shape="B", bound="ONE concrete input: scenario %d, value seed %d" % (_sc, _seed),
           funcs=["generate_merge_patch", "cJSONUtils_GenerateMergePatchCaseSensitive", "merge_patch", "sort_object", "compare_json"], props=["C18"], covers=1, unwind=8,
-          unwindset=_AP_UW + ["generate_merge_patch:4", "generate_merge_patch.0:5", "merge_patch:4", "merge_patch.0:4", "cJSON_Compare:4", "cJSONUtils_GenerateMergePatch:3"], timeout=(600, 1800),
+          unwindset=[w.replace("cJSON_Duplicate_rec.0:3", "cJSON_Duplicate_rec.0:5").replace("cJSON_Delete.0:6", "cJSON_Delete.0:8") for w in _AP_UW] + ["generate_merge_patch:4", "generate_merge_patch.0:5", "merge_patch:4", "merge_patch.0:4", "cJSON_Compare:4", "cJSON_Compare.0:5", "cJSONUtils_GenerateMergePatch:3"], timeout=(600, 1800),
           defs=["-DGM_SCEN=%d" % _sc, "-DGM_CONCRETE=%d" % _seed, "-Dh_u_genmerge_b=h_u_genmerge_c_%d%d" % (_sc, _seed)])
